@@ -59,11 +59,16 @@ Qed.
 (* C16, compress: a successful run creates the temp file and the archive, removes the temp file, and ends
    with the archive as a regular file *)
 Theorem compress_effects : forall env,
+  (forall c, z_out env <> Blk c) ->
   let r := compress_cmd_model env in
   s_failed r = false ->
   s_out r = Reg (z_archive env)
   /\ exists cr ex tr, s_eff r = [EOpenW 0 cr ex tr true; EOpenW 1 true false true true; EWrites; EUnlink 1].
 Proof.
-  intros [[f] out a]. cbv zeta. unfold compress_cmd_model, compress_step_order.
-  destruct f; destruct out; cbn; intros H; try discriminate; split; try reflexivity; eauto.
+  intros [[f] out a]. cbn [z_out]. intros Hb0. cbv zeta. unfold compress_cmd_model, compress_step_order.
+  assert (Hb : forall c, out <> Blk c) by exact Hb0. clear Hb0.
+  assert (Hnil : forall l : list N, l ++ dropN (lenN l) [] = l).
+  { intros l. destruct (lenN l); cbn; apply app_nil_r. }
+  destruct f; destruct out; cbn; intros H; try discriminate; rewrite ?Hnil;
+    try (exfalso; eapply Hb; reflexivity); split; try reflexivity; eauto.
 Qed.
